@@ -35,7 +35,8 @@ def run(ctx):
                              "ops=%d" % (150 if q else 300)], timeout=900)
     ctx.stage("record", wall, **json.loads(out.strip().splitlines()[-1]))
     n = vlib.check_trace(ctx, "Trace_LineIndex.tla", "Trace_LineIndex.cfg", tp, sig_of,
-                         group_key=lambda e: e.get("e") == "build", timeout=3000, result_field="line")
+                         group_key=lambda e: e.get("e") == "build", timeout=3000, result_field="line",
+                         selftest_filter=lambda e: e.get("e") == "lc")
     evs = vlib.read_ndjson(tp)
     k = 0
     for i, e in enumerate(evs):
